@@ -242,7 +242,7 @@ var brokerSeq uint64
 
 type brokerEvents struct {
 	mu      sync.Mutex
-	admit   []uint64          // service ids in admission order
+	admit   []uint64 // service ids in admission order
 	stopped map[uint64]chan struct{}
 }
 
